@@ -118,7 +118,7 @@ func c11Judge(k c11Case) *vlib.Failure {
 		}
 	default:
 		var err error
-		bm, err = buildViaH(k.Route, k.Cfg, k.Debug)
+		bm, err = buildViaH(k.Route, k.Cfg, k.Debug, k.Req)
 		if err != nil {
 			return vlib.Failf("configuration of the C11 alphabet rejected (route %q): %v", routeNames[k.Route], err)
 		}
